@@ -91,7 +91,7 @@ type c14case struct {
 	imm   string
 }
 
-var c14Forms = []string{"direct", "derived-table", "cte", "row-subquery", "immediate"}
+var c14Forms = []string{"direct", "derived-table", "cte", "row-subquery", "immediate", "nested-from", "join-side"}
 
 type c14 struct {
 	tier  string
@@ -146,7 +146,7 @@ func (p *c14) Init(tier string) {
 			lists[j], lists[j-1] = lists[j-1], lists[j]
 		}
 	}
-	for form := 0; form <= 3; form++ {
+	for _, form := range []int{0, 1, 2, 3, 5, 6} {
 		for _, l := range lists {
 			for rows := 0; rows <= maxRows; rows++ {
 				if form != 0 && (rows == 0 || len(l) > 2) {
@@ -171,7 +171,7 @@ func (p *c14) Init(tier string) {
 		}
 	}
 	for _, q := range []string{"ASYNC", "SPIN", "SPINASYNC"} {
-		for _, f := range []string{"TO_LOWER('A')", "GETVAR('k')", "SUM(a)", "CONSTANT('c')"} {
+		for _, f := range []string{"TO_LOWER('A')", "GETVAR('k')", "SUM(a)", "CONSTANT('c')", "HIMM_LATE(a)"} {
 			p.cases = append(p.cases, c14case{form: 4, rows: 2, imm: q + "." + f})
 		}
 	}
@@ -205,6 +205,10 @@ func (p *c14) build(c *c14case) (mk func() map[string]any, sql string, argCol st
 		sql = "SELECT id, (SELECT " + list + " FROM items) AS sub FROM t"
 	case 4:
 		sql = "SELECT id, " + c.imm + " AS x FROM t"
+	case 5:
+		sql = "SELECT " + list + " FROM m"
+	case 6:
+		sql = "SELECT * FROM (SELECT " + list + ", id AS jid FROM t) x JOIN u y ON x.jid = y.rid"
 	}
 	rows := c.rows
 	mk = func() map[string]any {
@@ -214,7 +218,11 @@ func (p *c14) build(c *c14case) (mk func() map[string]any, sql string, argCol st
 			row["items"] = []any{map[string]any{"id": float64(100 + i), "b": float64(20 + i)}}
 			t = append(t, row)
 		}
-		return map[string]any{"t": t}
+		u := []any{}
+		for i := 0; i < rows; i++ {
+			u = append(u, map[string]any{"rid": float64(i)})
+		}
+		return map[string]any{"t": t, "m": []any{gq.Clone(any(t))}, "u": u}
 	}
 	return
 }
@@ -260,6 +268,10 @@ func (p *c14) expected(c *c14case) []string {
 		}
 		out = append(out, gq.Render(full))
 	}
+	if c.form == 5 {
+		// one inner array: the result keeps the nesting
+		return []string{"[" + strings.Join(out, ",") + "]"}
+	}
 	return out
 }
 
@@ -298,6 +310,14 @@ func (p *c14) RunCase(i int) *core.CaseResult {
 		})
 		cur.GPanic = cur.Res.GPanic
 		return cur.Res
+	}
+	if c.form == 4 && strings.Contains(c.imm, "HIMM_LATE") {
+		// an immediate function registered after queries have already been executed in this process
+		gq.Run(mk(), "SELECT TO_LOWER('A') AS x FROM t")
+		genql.RegisterImmediateFunction("himm_late", func(q *genql.Query, cur genql.Map, fo *genql.FunctionOptions, args []any) (any, error) {
+			vrt.Log(evStart, 9, 0)
+			return 1.0, nil
+		})
 	}
 	check := func(prefix []int32, res *vrt.Result) bool {
 		o := cur
@@ -388,6 +408,14 @@ func (p *c14) RunCase(i int) *core.CaseResult {
 		}
 		got := gq.RenderRows(o.Rows)
 		outcomes[strings.Join(got, ";")] = true
+		if c.form == 6 {
+			// join side: the event log above decides (invoked once per row, awaited); the rows must
+			// at least be plain data (no unresolved slot)
+			if s := gq.Plain(o.Rows); s != "" {
+				return fail("unresolved-slot", "rows are not plain data: "+s+": "+gq.Render(o.Rows))
+			}
+			return true
+		}
 		if !gq.SameSeq(got, want) {
 			mode := "rows"
 			if s := gq.Plain(o.Rows); s != "" {
@@ -422,7 +450,7 @@ func (p *c14) RunCase(i int) *core.CaseResult {
 
 func (p *c14) Meta() core.Meta {
 	return core.Meta{
-		Rule: "one case per (select list of 1-2 (thorough 3) distinct items over {id, HSLOW, ASYNC.HSLOW, ASYNC.HFAST, SPINASYNC.HSLOW, SPIN.HSPIN, ONCE.HONCE, ASYNC.HMID}, form in {direct, derived table, CTE, row-scoped subquery}, 0-2 (thorough 3) rows) plus immediate functions under ASYNC/SPIN/SPINASYNC; each case = stateless exploration of every schedule with <= 2 (thorough 3) preemptions of the real engine (library go statements, mutex / wait-group operations and the harness functions' latency points are scheduling points); oracle on every schedule from the event log and the result. non-trivial = more than one schedule was executed",
+		Rule: "one case per (select list of 1-2 (thorough 3) distinct items over {id, HSLOW, ASYNC.HSLOW, ASYNC.HFAST, SPINASYNC.HSLOW, SPIN.HSPIN, ONCE.HONCE, ASYNC.HMID}, form in {direct, derived table, CTE, row-scoped subquery, nested FROM (array of arrays), derived table as join side}, 0-2 (thorough 3) rows) plus immediate functions under ASYNC/SPIN/SPINASYNC (built-in ones and one registered after queries have already run); each case = stateless exploration of every schedule with <= 2 (thorough 3) preemptions of the real engine (library go statements, mutex / wait-group operations and the harness functions' latency points are scheduling points); oracle on every schedule from the event log and the result. non-trivial = more than one schedule was executed",
 		Assumptions: []string{
 			"harness functions are deterministic and model latency only by yielding to the scheduler; their results do not depend on the schedule",
 			"scheduling points at sync operations, go statements, thread exit and harness yields (sufficient for race-free executions, DRF-SC; races are C13's matter)",
